@@ -50,7 +50,10 @@ def encode_struct(idx, t, v, callers):
     if declared.get('subtypes'):
         # "A struct that enumerates subtypes ... includes a .tag key to distinguish the type"
         tag = [tg for tg, kid in declared['subtypes']['items'] if kid == name and t[1] == ns]
-        out['.tag'] = tag[0]
+        if tag:
+            out['.tag'] = tag[0]
+        else:
+            out['.tag'] = None     # the base struct itself (catch-all of an unknown subtype): no tag of its own
     out.update(struct_fields_json(idx, v, callers))
     return out
 
